@@ -186,6 +186,7 @@ func inlineNewHelpers(roots []*packages.Package, byPath map[string]*packages.Pac
 }
 
 type inliner struct {
+	nameObj map[string]types.Object // caller variables that receive results directly (threaded expansion): name -> object
 	pk    *packages.Package
 	fset  *token.FileSet
 	info  *types.Info
@@ -238,9 +239,12 @@ func inlinePackage(pk *packages.Package, fset *token.FileSet) int {
 			if known[key] {
 				continue
 			}
+			if os.Getenv("MOSVERIF_INLINE_DEBUG") != "" {
+				fmt.Fprintf(os.Stderr, "inline: new function %s: typeparams=%v inlinable=%v variadic=%v deferOK=%v\n", key, fd.Type.TypeParams != nil, bodyInlinable(fd.Body), hasVariadic(fd.Type), deferOK(fd.Type, fd.Body))
+			}
 			// a recorded function of the same receiver disappeared: this may be its new name — leave it to the
 			// rename canonicalisation
-			if fd.Type.TypeParams != nil || !bodyInlinable(fd.Body) || hasVariadic(fd.Type) || !deferOK(fd.Type, fd.Body) {
+			if !genericOK(fd) || !bodyInlinable(fd.Body) || hasVariadic(fd.Type) || !deferOK(fd.Type, fd.Body) {
 				continue
 			}
 			obj := in.info.Defs[fd.Name]
@@ -300,6 +304,7 @@ func inlinePackage(pk *packages.Package, fset *token.FileSet) int {
 		})
 	}
 	for id, obj := range in.info.Uses {
+		obj = originObj(obj)
 		c := in.cands[obj]
 		if c == nil {
 			continue
@@ -311,6 +316,9 @@ func inlinePackage(pk *packages.Package, fset *token.FileSet) int {
 		c.sites++
 	}
 	for obj, c := range in.cands {
+		if os.Getenv("MOSVERIF_INLINE_DEBUG") != "" {
+			fmt.Fprintf(os.Stderr, "inline: candidate %s sites=%d\n", obj.Name(), c.sites)
+		}
 		if c.sites == 0 {
 			delete(in.cands, obj)
 		}
@@ -351,7 +359,69 @@ func inlinePackage(pk *packages.Package, fset *token.FileSet) int {
 			in.removeClosureBinding(c)
 		}
 	}
+	if n > 0 {
+		for _, f := range pk.Syntax {
+			pruneImports(pk, f)
+		}
+	}
 	return n
+}
+
+// pruneImports removes imports a file no longer uses (the helper that needed them was expanded elsewhere and deleted).
+func pruneImports(pk *packages.Package, f *ast.File) {
+	used := map[string]bool{}
+	ast.Inspect(f, func(n ast.Node) bool {
+		if se, ok := n.(*ast.SelectorExpr); ok {
+			if id, ok := se.X.(*ast.Ident); ok {
+				used[id.Name] = true
+			}
+		}
+		return true
+	})
+	keep := func(im *ast.ImportSpec) bool {
+		path := strings.Trim(im.Path.Value, `"`)
+		name := ""
+		if im.Name != nil {
+			name = im.Name.Name
+		} else if d := pk.Imports[path]; d != nil {
+			name = d.Name
+		} else {
+			return true
+		}
+		if name == "_" || name == "." {
+			return true
+		}
+		return used[name]
+	}
+	var imports []*ast.ImportSpec
+	for _, im := range f.Imports {
+		if keep(im) {
+			imports = append(imports, im)
+		}
+	}
+	if len(imports) == len(f.Imports) {
+		return
+	}
+	f.Imports = imports
+	var decls []ast.Decl
+	for _, d := range f.Decls {
+		gd, ok := d.(*ast.GenDecl)
+		if !ok || gd.Tok != token.IMPORT {
+			decls = append(decls, d)
+			continue
+		}
+		var specs []ast.Spec
+		for _, sp := range gd.Specs {
+			if keep(sp.(*ast.ImportSpec)) {
+				specs = append(specs, sp)
+			}
+		}
+		if len(specs) > 0 {
+			gd.Specs = specs
+			decls = append(decls, gd)
+		}
+	}
+	f.Decls = decls
 }
 
 // closureIsNew: the closure's enclosing top-level function is new, or has more closures than the reviewed tree records.
@@ -410,6 +480,38 @@ func funcTableKeyMatches(name, pkg, recv, fn string) bool {
 		return name == pkg+"."+fn
 	}
 	return name == "(*"+pkg+"."+recv+")."+fn || name == "("+pkg+"."+recv+")."+fn
+}
+
+// genericOK: a generic function can be expanded when its type parameters are named in parameter types only (their
+// types are then taken from the arguments): not in the results and not in the body.
+func genericOK(fd *ast.FuncDecl) bool {
+	if fd.Type.TypeParams == nil {
+		return true
+	}
+	if fd.Recv != nil {
+		return false
+	}
+	if fd.Type.Results != nil && mentionsTypeParam(fd.Type.Results, fd.Type.TypeParams) {
+		return false
+	}
+	return !mentionsTypeParam(fd.Body, fd.Type.TypeParams)
+}
+
+func mentionsTypeParam(n ast.Node, tps *ast.FieldList) bool {
+	names := map[string]bool{}
+	for _, f := range tps.List {
+		for _, nm := range f.Names {
+			names[nm.Name] = true
+		}
+	}
+	found := false
+	ast.Inspect(n, func(m ast.Node) bool {
+		if id, ok := m.(*ast.Ident); ok && names[id.Name] {
+			found = true
+		}
+		return !found
+	})
+	return found
 }
 
 func hasVariadic(ft *ast.FuncType) bool {
@@ -479,6 +581,16 @@ func deferOK(ft *ast.FuncType, b *ast.BlockStmt) bool {
 	return true
 }
 
+// ident makes an identifier; when name denotes a caller variable that receives a result directly, the use is recorded so
+// that a later expansion of the enclosing function renames it together with its declaration.
+func (in *inliner) ident(name string) *ast.Ident {
+	id := ast.NewIdent(name)
+	if o := in.nameObj[name]; o != nil {
+		in.info.Uses[id] = o
+	}
+	return id
+}
+
 func (in *inliner) bodyOf(c *inlCand) *ast.BlockStmt {
 	if c.decl != nil {
 		return c.decl.Body
@@ -503,7 +615,7 @@ func (in *inliner) topoOrder() []*inlCand {
 	for _, c := range all {
 		ast.Inspect(in.bodyOf(c), func(n ast.Node) bool {
 			if id, ok := n.(*ast.Ident); ok {
-				if d := in.cands[in.info.Uses[id]]; d != nil {
+				if d := in.cands[originObj(in.info.Uses[id])]; d != nil {
 					deps[c] = append(deps[c], d)
 				}
 			}
@@ -577,10 +689,18 @@ func (in *inliner) isCallTo(e ast.Expr, c *inlCand) *ast.CallExpr {
 	case *ast.SelectorExpr:
 		id = fn.Sel
 	}
-	if id != nil && in.info.Uses[id] == c.obj {
+	if id != nil && originObj(in.info.Uses[id]) == c.obj {
 		return ce
 	}
 	return nil
+}
+
+// originObj: a method of an instantiated generic type denotes its declaration.
+func originObj(o types.Object) types.Object {
+	if f, ok := o.(*types.Func); ok && f != nil {
+		return f.Origin()
+	}
+	return o
 }
 
 func (in *inliner) containsCallTo(n ast.Node, c *inlCand) *ast.CallExpr {
@@ -1155,6 +1275,22 @@ func (in *inliner) expandT(ce *ast.CallExpr, assign *ast.AssignStmt, tok token.T
 						name = nm.Name + tag
 					}
 				}
+				if c.decl != nil && c.decl.Type.TypeParams != nil && mentionsTypeParam(f.Type, c.decl.Type.TypeParams) {
+					// a parameter of a generic helper whose type names a type parameter takes its type from the
+					// argument (genericOK made sure the body and the results do not name type parameters)
+					for _, a := range ce.Args {
+						if hasCallOrRecv(a) {
+							return nil, false // the separate binding would reorder calls among the arguments
+						}
+					}
+					if id, isId := ce.Args[ai].(*ast.Ident); isId && id.Name == "nil" {
+						return nil, false
+					}
+					bind = append(bind, &ast.AssignStmt{Lhs: []ast.Expr{ast.NewIdent(name)}, Tok: token.DEFINE, Rhs: []ast.Expr{ce.Args[ai]}})
+					bind = append(bind, &ast.AssignStmt{Lhs: []ast.Expr{ast.NewIdent("_")}, Tok: token.ASSIGN, Rhs: []ast.Expr{ast.NewIdent(name)}})
+					ai++
+					continue
+				}
 				bind = append(bind, varDecl(name, copyNode(f.Type, nil, nil).(ast.Expr), f.Type.End()))
 				lhs = append(lhs, ast.NewIdent(name))
 				rhs = append(rhs, ce.Args[ai])
@@ -1194,9 +1330,14 @@ func (in *inliner) expandT(ce *ast.CallExpr, assign *ast.AssignStmt, tok token.T
 				}
 				resTmp = append(resTmp, tmp)
 				if declare {
-					pre = append(pre, varDecl(tmp, copyNode(f.Type, nil, nil).(ast.Expr), f.Type.End()))
+					vd := varDecl(tmp, copyNode(f.Type, nil, nil).(ast.Expr), f.Type.End())
+					if th != nil && k < len(th.resIdents) && th.resIdents[k] != nil {
+						// the caller's own identifier declares the variable (its object stays attached to it)
+						vd.(*ast.DeclStmt).Decl.(*ast.GenDecl).Specs[0].(*ast.ValueSpec).Names[0] = th.resIdents[k]
+					}
+					pre = append(pre, vd)
 					if th != nil {
-						pre = append(pre, &ast.AssignStmt{Lhs: []ast.Expr{ast.NewIdent("_")}, Tok: token.ASSIGN, Rhs: []ast.Expr{ast.NewIdent(tmp)}})
+						pre = append(pre, &ast.AssignStmt{Lhs: []ast.Expr{ast.NewIdent("_")}, Tok: token.ASSIGN, Rhs: []ast.Expr{in.ident(tmp)}})
 					}
 				}
 				if nm != nil && nm.Name != "_" {
@@ -1224,13 +1365,16 @@ func (in *inliner) expandT(ce *ast.CallExpr, assign *ast.AssignStmt, tok token.T
 			continue
 		}
 		if _, has := ren[o]; !has {
-			ren[o] = id.Name + tag
+			ren[o] = o.Name() + tag
 		}
 	}
+	// labels inside the body are the ones earlier expansions introduced: each copy gets its own
+	copyLabelSuffix = tag
 	body := copyNode(ob, ren, in.info).(*ast.BlockStmt)
+	copyLabelSuffix = ""
 	label := "L" + tag
 	usedLabel := false
-	mk := defaultReturnRewriter(resTmp, named, label, &usedLabel)
+	mk := in.defaultReturnRewriter(resTmp, named, label, &usedLabel)
 	if th != nil {
 		mk = in.threadedReturnRewriter(th, resTmp, named, label, &usedLabel)
 	}
@@ -1406,13 +1550,13 @@ func rewriteReturnsD(n ast.Node, mk func(r *ast.ReturnStmt, isLast bool) []ast.S
 	b.List = fix(b.List, top, true)
 }
 
-func defaultReturnRewriter(res []string, named []string, label string, used *bool) func(r *ast.ReturnStmt, isLast bool) []ast.Stmt {
+func (in *inliner) defaultReturnRewriter(res []string, named []string, label string, used *bool) func(r *ast.ReturnStmt, isLast bool) []ast.Stmt {
 	return func(r *ast.ReturnStmt, isLast bool) []ast.Stmt {
 		var out []ast.Stmt
 		if len(res) > 0 {
 			var lhs []ast.Expr
 			for _, t := range res {
-				lhs = append(lhs, ast.NewIdent(t))
+				lhs = append(lhs, in.ident(t))
 			}
 			var rhs []ast.Expr
 			if len(r.Results) > 0 {
@@ -1532,6 +1676,9 @@ func (in *inliner) capturesResolveAt(c *inlCand, pos token.Pos) bool {
 		if o == nil || o.Pos() >= c.lit.Pos() && o.Pos() < c.lit.End() {
 			return true // declared inside the closure
 		}
+		if id.Name != o.Name() {
+			return true // a renamed local of a helper expanded earlier inside this closure
+		}
 		if _, isPkg := o.(*types.PkgName); isPkg {
 			if _, found := inner.LookupParent(o.Name(), pos); found != o {
 				ok = false
@@ -1585,6 +1732,9 @@ func copyNode(n ast.Node, ren map[types.Object]string, info *types.Info) ast.Nod
 	return v.Interface().(ast.Node)
 }
 
+// copyLabelSuffix, when set, is appended to every label (declaration and use) of the copy.
+var copyLabelSuffix string
+
 func copyValue(v reflect.Value, ren map[types.Object]string, info *types.Info) reflect.Value {
 	switch v.Kind() {
 	case reflect.Ptr:
@@ -1594,6 +1744,15 @@ func copyValue(v reflect.Value, ren map[types.Object]string, info *types.Info) r
 		switch x := v.Interface().(type) {
 		case *ast.Object, *ast.Scope:
 			return reflect.Zero(v.Type())
+		case *ast.LabeledStmt:
+			if copyLabelSuffix != "" {
+				return reflect.ValueOf(&ast.LabeledStmt{Label: &ast.Ident{NamePos: x.Label.NamePos, Name: x.Label.Name + copyLabelSuffix}, Colon: x.Colon,
+					Stmt: copyValue(reflect.ValueOf(x.Stmt), ren, info).Interface().(ast.Stmt)})
+			}
+		case *ast.BranchStmt:
+			if copyLabelSuffix != "" && x.Label != nil {
+				return reflect.ValueOf(&ast.BranchStmt{TokPos: x.TokPos, Tok: x.Tok, Label: &ast.Ident{NamePos: x.Label.NamePos, Name: x.Label.Name + copyLabelSuffix}})
+			}
 		case *ast.Ident:
 			id := &ast.Ident{NamePos: x.NamePos, Name: x.Name}
 			if info != nil {
